@@ -402,7 +402,7 @@ func c18GenString(t *rapid.T) string {
 		case 0:
 			return rapid.StringMatching(`[a-zA-Z0-9_]{0,6}`).Draw(t, label)
 		case 1:
-			return rapid.StringOfN(rapid.SampledFrom([]rune(":#@* \t\n\r\fa7_|.+-/é \u000b 😀")), 0, 6, -1).Draw(t, label)
+			return rapid.StringOfN(rapid.SampledFrom([]rune(":#@* \t\n\r\fa7_|.+-/é \u000b 😀\u212a\u0130\u017f\u0085ß")), 0, 6, -1).Draw(t, label)
 		case 2:
 			return rapid.String().Draw(t, label)
 		case 3:
@@ -415,7 +415,14 @@ func c18GenString(t *rapid.T) string {
 			return rapid.StringMatching(`[a-z|*@.+]{1,4}`).Draw(t, label)
 		}
 	}
-	switch rapid.IntRange(0, 4).Draw(t, "shape") {
+	switch rapid.IntRange(0, 5).Draw(t, "shape") {
+	case 5:
+		// an otherwise valid object / userset / wildcard with one character of a special class inserted at a drawn place
+		// (form feed, vertical tab, NEL, NBSP, KELVIN SIGN, dotted capital I, long s, a delimiter)
+		base := rapid.SampledFrom([]string{"document:1", "document:1#viewer", "group:eng#member", "user:*", "doc:x_y|z", "folder:a.b+c@d"}).Draw(t, "skeleton")
+		ins := rapid.SampledFrom([]string{"\f", "\v", "\u0085", "\u00a0", "\u212a", "\u0130", "\u017f", "\t", " ", ":", "#", "*", "@", "\r", "\n"}).Draw(t, "insert")
+		at := rapid.IntRange(0, len(base)).Draw(t, "insertAt")
+		return base[:at] + ins + base[at:]
 	case 0:
 		return part("whole")
 	case 1:
